@@ -50,10 +50,17 @@ func (c *Ctx) gateType() (*types.Named, *ssa.Function) {
 		if _, ok := n.Underlying().(*types.Signature); !ok {
 			continue
 		}
-		for _, ci := range flow.CallInstrs(f) {
-			if flow.IsCallTo(ci, pkgSMPeer, "", "FromContext") {
-				return n, f
+		found := false
+		flow.Instrs(f, func(in ssa.Instruction) {
+			if ifi, ok := in.(*ssa.If); ok {
+				cond, _ := flow.Cond(ifi.Cond, true)
+				if _, ok := peerKnownTest(cond, 0); ok {
+					found = true
+				}
 			}
+		})
+		if found {
+			return n, f
 		}
 	}
 	return nil, nil
@@ -310,16 +317,12 @@ func runC10(c *Ctx) {
 			} else {
 				g := gs[0]
 				cond, neg := flow.Cond(g.If.Cond, g.Taken)
-				ex, isEx := cond.(*ssa.Extract)
-				if !isEx || neg || ex.Index != 1 {
-					good, why = false, "the guard is not the ok result of smpeer.FromContext"
-				} else if fc, isCall := ex.Tuple.(*ssa.Call); !isCall || !flow.IsCallTo(fc, pkgSMPeer, "", "FromContext") {
+				ctx, isTest := peerKnownTest(cond, 0)
+				if !isTest || neg {
 					good, why = false, "the guard is not the ok result of smpeer.FromContext"
 				} else {
 					// argument is c.Context() of the conn parameter
-					arg := fc.Call.Args[0]
-					ac, isC := arg.(*ssa.Call)
-					if !isC || !ac.Call.IsInvoke() || ac.Call.Method.Name() != "Context" || len(gateFn.Params) < 2 || ac.Call.Value != ssa.Value(gateFn.Params[1]) {
+					if len(gateFn.Params) < 2 || !contextIsOfConn(ctx, gateFn.Params[1]) {
 						good, why = false, "FromContext is not applied to the Context() of the connection the message arrived on"
 					}
 					// the wrapped call receives the same conn and message
@@ -537,25 +540,8 @@ func (c *Ctx) c10Refusals() {
 			continue
 		}
 		refused := map[string]bool{}
-		for _, g := range flow.Guards(ci) {
-			cond, neg := flow.Cond(g.If.Cond, g.Taken)
-			bo, ok := cond.(*ssa.BinOp)
-			if !ok {
-				continue
-			}
-			var s string
-			var isS bool
-			if bo.X == ssa.Value(hf.Params[1]) {
-				s, isS = flow.ConstString(bo.Y)
-			} else if bo.Y == ssa.Value(hf.Params[1]) {
-				s, isS = flow.ConstString(bo.X)
-			}
-			if !isS {
-				continue
-			}
-			if (bo.Op == token.EQL && neg) || (bo.Op == token.NEQ && !neg) {
-				refused[s] = true
-			}
+		for _, k := range c.excludedKeys(ci, hf.Params[1], func(v ssa.Value) (string, bool) { return flow.ConstString(v) }) {
+			refused[k] = true
 		}
 		var missing []string
 		for _, k := range []string{"CER", "CEA", "DWR"} {
@@ -568,53 +554,36 @@ func (c *Ctx) c10Refusals() {
 			fmt.Sprintf("an application can register a handler under the built-in name(s) %v and replace the state machine's processing", missing))
 	}
 	// HandleIdx: globals
-	type idx struct {
-		app, code int64
-		req       bool
+	want := map[string]string{"0/257/true": "CER", "0/257/false": "CEA", "0/280/true": "DWR"}
+	idxKey := func(v ssa.Value) (string, bool) {
+		gl := loadedGlobal(v)
+		if gl == nil {
+			return "", false
+		}
+		vals, ok := c.globalStructLit(gl)
+		if !ok {
+			return "", false
+		}
+		var app, code int64
+		req := false
+		if v, ok := vals["AppID"]; ok {
+			app, _ = constant.Int64Val(v)
+		}
+		if v, ok := vals["Code"]; ok {
+			code, _ = constant.Int64Val(v)
+		}
+		if v, ok := vals["Request"]; ok {
+			req = constant.BoolVal(v)
+		}
+		return fmt.Sprintf("%d/%d/%v", app, code, req), true
 	}
-	want := map[idx]string{{0, 257, true}: "CER", {0, 257, false}: "CEA", {0, 280, true}: "DWR"}
 	for _, ci := range flow.CallInstrs(hi) {
 		if _, ok := isMuxRegistration(ci); !ok {
 			continue
 		}
-		refused := map[idx]bool{}
-		for _, g := range flow.Guards(ci) {
-			cond, neg := flow.Cond(g.If.Cond, g.Taken)
-			bo, ok := cond.(*ssa.BinOp)
-			if !ok {
-				continue
-			}
-			var other ssa.Value
-			if bo.X == ssa.Value(hi.Params[1]) {
-				other = bo.Y
-			} else if bo.Y == ssa.Value(hi.Params[1]) {
-				other = bo.X
-			}
-			if other == nil {
-				continue
-			}
-			if !((bo.Op == token.EQL && neg) || (bo.Op == token.NEQ && !neg)) {
-				continue
-			}
-			gl := loadedGlobal(other)
-			if gl == nil {
-				continue
-			}
-			vals, ok := c.globalStructLit(gl)
-			if !ok {
-				continue
-			}
-			id := idx{}
-			if v, ok := vals["AppID"]; ok {
-				id.app, _ = constant.Int64Val(v)
-			}
-			if v, ok := vals["Code"]; ok {
-				id.code, _ = constant.Int64Val(v)
-			}
-			if v, ok := vals["Request"]; ok {
-				id.req = constant.BoolVal(v)
-			}
-			refused[id] = true
+		refused := map[string]bool{}
+		for _, k := range c.excludedKeys(ci, hi.Params[1], idxKey) {
+			refused[k] = true
 		}
 		var missing []string
 		for k, n := range want {
@@ -627,6 +596,114 @@ func (c *Ctx) c10Refusals() {
 		r.Check(len(missing) == 0, "R4", key, c.pos(ci), fmt.Sprintf("registration unreachable for %d built-in command indexes (0,257,R) (0,257,A) (0,280,R)", len(refused)),
 			fmt.Sprintf("an application can register a handler under the built-in index of %v and replace the state machine's processing", missing))
 	}
+}
+
+// excludedKeys: the constant keys K for which instruction in is unreachable because a dominating guard implies
+// param != K: comparisons of param with K, or a package-local predicate over param whose result is true for K
+// (a chain of param == K alternatives) on its false edge.
+func (c *Ctx) excludedKeys(in ssa.Instruction, param ssa.Value, keyOf func(ssa.Value) (string, bool)) []string {
+	var out []string
+	for _, g := range flow.Guards(in) {
+		cond, neg := flow.Cond(g.If.Cond, g.Taken)
+		switch x := cond.(type) {
+		case *ssa.BinOp:
+			var other ssa.Value
+			if x.X == param {
+				other = x.Y
+			} else if x.Y == param {
+				other = x.X
+			}
+			if other == nil {
+				continue
+			}
+			if k, ok := keyOf(other); ok && ((x.Op == token.EQL && neg) || (x.Op == token.NEQ && !neg)) {
+				out = append(out, k)
+			}
+		case *ssa.Call:
+			if !neg {
+				continue
+			}
+			h := flow.StaticCallee(x)
+			if h == nil || h.Blocks == nil || !c.P.IsLibrary(h) {
+				continue
+			}
+			for i, a := range x.Call.Args {
+				if a == param && i < len(h.Params) {
+					out = append(out, trueKeys(h, h.Params[i], keyOf)...)
+				}
+			}
+		}
+	}
+	return out
+}
+
+// trueKeys: constants K such that the boolean function h returns true whenever its parameter p equals K
+// (p == K1 || p == K2 || …, or a switch returning true).
+func trueKeys(h *ssa.Function, p *ssa.Parameter, keyOf func(ssa.Value) (string, bool)) []string {
+	var out []string
+	eqKey := func(v ssa.Value) (string, bool) {
+		bo, ok := v.(*ssa.BinOp)
+		if !ok || bo.Op != token.EQL {
+			return "", false
+		}
+		if bo.X == ssa.Value(p) {
+			return keyOf(bo.Y)
+		}
+		if bo.Y == ssa.Value(p) {
+			return keyOf(bo.X)
+		}
+		return "", false
+	}
+	var visit func(v ssa.Value, at ssa.Instruction, d int)
+	visit = func(v ssa.Value, at ssa.Instruction, d int) {
+		if d > 4 {
+			return
+		}
+		if k, ok := eqKey(v); ok {
+			out = append(out, k)
+			return
+		}
+		switch x := v.(type) {
+		case *ssa.Const:
+			if x.Value != nil && x.Value.Kind() == constant.Bool && constant.BoolVal(x.Value) && at != nil {
+				// constant true: the keys whose equality edge leads here
+				for _, g := range flow.Guards(at) {
+					if g.Taken {
+						if k, ok := eqKey(g.If.Cond); ok {
+							out = append(out, k)
+						}
+					}
+				}
+			}
+		case *ssa.Phi:
+			for i, e := range x.Edges {
+				pred := x.Block().Preds[i]
+				if k, isK := e.(*ssa.Const); isK && k.Value != nil && k.Value.Kind() == constant.Bool && constant.BoolVal(k.Value) {
+					// true arriving over the taken edge of "p == K"
+					if ifi, ok := pred.Instrs[len(pred.Instrs)-1].(*ssa.If); ok && pred.Succs[0] == x.Block() {
+						if kk, ok := eqKey(ifi.Cond); ok {
+							out = append(out, kk)
+						}
+					}
+					for _, g := range flow.Guards(pred.Instrs[len(pred.Instrs)-1]) {
+						if g.Taken {
+							if kk, ok := eqKey(g.If.Cond); ok {
+								out = append(out, kk)
+							}
+						}
+					}
+					continue
+				}
+				visit(e, nil, d+1)
+			}
+		}
+	}
+	flow.Instrs(h, func(in ssa.Instruction) {
+		if ret, ok := in.(*ssa.Return); ok && len(ret.Results) == 1 {
+			visit(ret.Results[0], ret, 0)
+		}
+	})
+	return out
 }
 
 func keys(m map[string]bool) []string {
@@ -704,4 +781,62 @@ func (c *Ctx) globalStructLit(g *ssa.Global) (map[string]constant.Value, bool) {
 		}
 	}
 	return nil, false
+}
+
+// peerKnownTest: cond (negations already peeled) is "the peer has completed the capabilities exchange": the ok
+// result of smpeer.FromContext(ctx), or a package-local predicate that returns exactly that for its argument.
+// It returns the context expression the test is applied to.
+func peerKnownTest(cond ssa.Value, depth int) (ssa.Value, bool) {
+	switch x := cond.(type) {
+	case *ssa.Extract:
+		if x.Index != 1 {
+			return nil, false
+		}
+		fc, ok := x.Tuple.(*ssa.Call)
+		if !ok || !flow.IsCallTo(fc, pkgSMPeer, "", "FromContext") {
+			return nil, false
+		}
+		return fc.Call.Args[0], true
+	case *ssa.Call:
+		h := flow.StaticCallee(x)
+		if h == nil || h.Blocks == nil || depth > 1 || pkgOf(h) == nil || pkgOf(h).Path() != pkgSM {
+			return nil, false
+		}
+		rvs := flow.ReturnValues(h, 0)
+		if len(rvs) != 1 {
+			return nil, false
+		}
+		inner, ok := peerKnownTest(rvs[0], depth+1)
+		if !ok {
+			return nil, false
+		}
+		// the context inside the helper: one of its parameters, or Context() of one of them
+		if p, isP := flow.Peel(inner).(*ssa.Parameter); isP && p.Parent() == h {
+			if i := paramIndex(h, p); i < len(x.Call.Args) {
+				return x.Call.Args[i], true
+			}
+		}
+		if ic, isC := inner.(*ssa.Call); isC && ic.Call.IsInvoke() && ic.Call.Method.Name() == "Context" {
+			if p, isP := flow.Peel(ic.Call.Value).(*ssa.Parameter); isP && p.Parent() == h {
+				if i := paramIndex(h, p); i < len(x.Call.Args) {
+					return connContextOf(x.Call.Args[i]), true
+				}
+			}
+		}
+	}
+	return nil, false
+}
+
+// connContextOf marks "Context() of this connection value" for callers that compare against a connection.
+type ctxOfConn struct{ ssa.Value }
+
+func connContextOf(conn ssa.Value) ssa.Value { return ctxOfConn{conn} }
+
+// contextIsOfConn: ctx is conn.Context().
+func contextIsOfConn(ctx, conn ssa.Value) bool {
+	if w, ok := ctx.(ctxOfConn); ok {
+		return w.Value == conn
+	}
+	ac, ok := ctx.(*ssa.Call)
+	return ok && ac.Call.IsInvoke() && ac.Call.Method.Name() == "Context" && ac.Call.Value == conn
 }
